@@ -36,6 +36,18 @@ def bitunpack(buf, pos, count, width):
     return out, pos + nbytes
 
 
+def bitpack_msb(values, width):
+    """deprecated BIT_PACKED level encoding: packed from the most significant bit"""
+    acc = 0
+    nbits = 0
+    for v in values:
+        acc = (acc << width) | v
+        nbits += width
+    pad = (-nbits) % 8
+    acc <<= pad
+    return acc.to_bytes((nbits + pad) // 8, "big")
+
+
 # ------------------------------------------------------------- hybrid RLE
 def rle_run(value, count, width):
     """one RLE run: header = count << 1, value in ceil(width/8) bytes"""
